@@ -3,6 +3,12 @@
 //! with full validation *is* the C01 oracle; doing it at every store point is the C02 oracle.
 
 use crate::world::*;
+
+/// Hook site: `VirtQueue::can_pop` returned false.
+pub const SPIN_POLL_EMPTY: u32 = 5;
+/// Consecutive empty polls (with nothing else happening) that make a loop.
+pub const POLL_EMPTY_LOOP: u32 = 24;
+
 use std::collections::BTreeSet;
 
 pub const D_NEXT: u16 = 1;
@@ -553,6 +559,18 @@ impl World {
     }
 
     pub fn on_spin(&mut self, site: u32) {
+        if site == SPIN_POLL_EMPTY {
+            // `can_pop` found nothing. A single unsuccessful poll is not a busy-wait; a run of
+            // them with no other driver activity in between (no transport call, store, platform
+            // call or operation boundary) is a loop that polls plain memory - one the library has
+            // no dedicated hook for, e.g. newly written code - and from then on every iteration
+            // is a moment at which the device may act (and the supervisor counts).
+            self.poll_empty_run += 1;
+            if self.poll_empty_run < POLL_EMPTY_LOOP {
+                return;
+            }
+            self.stats.probes.entry("unhooked_poll_loop").and_modify(|c| *c += 1).or_insert(1);
+        }
         self.ev(0x30, site as u64, 0);
         self.sched_point(PointKind::Spin);
     }
@@ -628,6 +646,10 @@ impl World {
     }
 
     pub fn device_can_progress(&self) -> bool {
+        if self.tr.status & ST_DRIVER_OK == 0 && !self.tr.legacy_pre_ok_allowed() {
+            // a device does not process queues before DRIVER_OK (same gate as `device_step`)
+            return false;
+        }
         for q in 0..self.dq.len() as u16 {
             if self.qreg(q).is_none() {
                 continue;
